@@ -87,7 +87,13 @@ def check_generation(k, bits, t, as_bool, with_latter_map=True, verbose=False, d
         valid = lib_call(dsw.connect_valid_graph, observed_length=k, vertices=mask_array(bits, as_bool))
         if isinstance(valid, Raised):
             return "connect_valid_graph raised %r on a non-empty mask" % valid, labels
-        trimmed = lib_call(lambda: dsw.latter_map_to_accessor(dsw.accessor_to_latter_map(valid), k, threshold=t))
+        def trim():
+            latter_map = dsw.accessor_to_latter_map(valid)
+            if (sum(bits) + t) % 2:  # the same graph with its keys inserted in another order (a hand-built map)
+                keys = sorted(latter_map, key=lambda v: (v * 7 + 3) % (4 ** k))
+                latter_map = {key: latter_map[key] for key in keys}
+            return dsw.latter_map_to_accessor(latter_map, k, threshold=t)
+        trimmed = lib_call(trim)
         if isinstance(trimmed, Raised):
             return "latter-map trimming raised %r (k=%d t=%d mask=%s)" % (trimmed, k, t, short(bits)), labels
         try:
